@@ -29,6 +29,11 @@ static void run_case(CaseCtx& c)
         go.nth_min = 16;
         go.nth_max = 96;
     }
+    // a few levels above 10 000 nodes with several threads: the parallel paths of both residual operators
+    const bool large = !dense && rng.coin(0.05);
+    if (large) {
+        go.nr_min = 81; go.nr_max = 97; go.nth_min = 128; go.nth_max = 160;
+    }
     go.angular_kind = rng.coin(0.7) ? rng.range(1, 2) : 0;
     go.Rmax = rng.pick({1.0, 1.3, 2.0});
     GridSpec gs;
@@ -42,11 +47,14 @@ static void run_case(CaseCtx& c)
         ps.geom = rng.range(1, 2);
         random_geom_params(rng, ps);
     }
+    maybe_mirror(rng, ps);
     bool dirbc = rng.coin();
     int threads = rng.pick({1, 1, 4});
+    if (large)
+        threads = rng.pick({2, 4, 16});
     gs.describe(c.obs.params);
     ps.describe(c.obs.params);
-    c.obs.params.b("DirBC_Interior", dirbc).b("dense", dense).i("threads", threads);
+    c.obs.params.b("DirBC_Interior", dirbc).b("dense", dense).i("threads", threads).b("large", large);
 
     ProblemObjs po(ps);
     PolarGrid grid = gs.make();
